@@ -211,7 +211,7 @@ def run_shard(ctx: Ctx) -> None:
         if msg:
             raise Violation(msg, {"schema_text": text, "pickle": pickle_b64((s, vals))})
 
-    hyp_run(ctx, program(ctx.pick(24, 120), twin=True), body, ctx.n(640, 5000), shrink_cap=60)
+    hyp_run(ctx, program(ctx.pick(24, 120), twin=True), body, ctx.n(1600, 5000), shrink_cap=60)
 
 
 def replay(c: Dict[str, Any]) -> Optional[str]:
